@@ -185,6 +185,8 @@ class Check:
         samples = list(r.samples)
         if len(samples) > 12:
             samples = rnd.sample(samples, 12)
+        if not samples:
+            samples = ["(harness emitted no sample lines) outcome classes: " + ", ".join(sorted(r.sets)[:20])]
         cov = {
             "evaluations": int(r.sum.get("evaluations", 0)),
             "distinct_nontrivial": int(r.sum.get("nontrivial", 0)),
